@@ -683,7 +683,7 @@ func (ex *Exec) newFrame(fn *ssa.Function, prefix string, fc *FuncContract, pc *
 	if fc != nil {
 		for _, cl := range fc.Clauses {
 			if cl.Kind == "cut" {
-				in := ex.findAnchor(fn, cl.Anchor, cl.Site)
+				in := ex.findAnchor(fn, cl.Anchor, cl.Site, cl.After)
 				if in == nil {
 					ex.contractError(cl, fmt.Sprintf("cut: no statement of %s contains %q", fn.Name(), cl.Anchor))
 				}
@@ -724,7 +724,7 @@ func (ex *Exec) newFrame(fn *ssa.Function, prefix string, fc *FuncContract, pc *
 
 // findAnchor: the first instruction (in block order) of the nth (from 1; 0 means first) source line of the function
 // that contains text.
-func (ex *Exec) findAnchor(fn *ssa.Function, text string, nth int) ssa.Instruction {
+func (ex *Exec) findAnchor(fn *ssa.Function, text string, nth int, after string) ssa.Instruction {
 	firstOf := map[int]ssa.Instruction{}
 	var lines []int
 	for _, b := range fn.Blocks {
@@ -747,6 +747,31 @@ func (ex *Exec) findAnchor(fn *ssa.Function, text string, nth int) ssa.Instructi
 		}
 	}
 	sort.Ints(lines)
+	if after != "" {
+		// only the lines after the first line (of the function) that contains `after`
+		first := -1
+		for _, b := range fn.Blocks {
+			for _, in := range b.Instrs {
+				if !in.Pos().IsValid() {
+					continue
+				}
+				p := ex.Prog.Fset.Position(in.Pos())
+				if strings.Contains(ex.Prog.sourceLine(p.Filename, p.Line), after) && (first < 0 || p.Line < first) {
+					first = p.Line
+				}
+			}
+		}
+		if first < 0 {
+			return nil
+		}
+		var ls []int
+		for _, l := range lines {
+			if l > first {
+				ls = append(ls, l)
+			}
+		}
+		lines = ls
+	}
 	if nth < 1 {
 		nth = 1
 	}
